@@ -20,8 +20,8 @@ from checklib import snapproto as sp
 LEVEL = "model_checking"
 CWD = os.path.join(core.SPEC, "snaprecv")
 
-QUICK_EXPORTS = ["Exp_basic.cfg", "Exp_multi.cfg", "Exp_extreme.cfg", "Exp_overflow.cfg", "Exp_clash.cfg", "Exp_tree_q.cfg"]
-THOROUGH_EXPORTS = ["Exp_basic.cfg", "Exp_multi_t.cfg", "Exp_extreme.cfg", "Exp_overflow.cfg", "Exp_clash_t.cfg",
+QUICK_EXPORTS = ["Exp_basic.cfg", "Exp_multi.cfg", "Exp_extreme.cfg", "Exp_overflow.cfg", "Exp_clash.cfg", "Exp_max.cfg", "Exp_tree_q.cfg"]
+THOROUGH_EXPORTS = ["Exp_basic.cfg", "Exp_multi_t.cfg", "Exp_extreme.cfg", "Exp_overflow.cfg", "Exp_clash_t.cfg", "Exp_max.cfg",
                     "Exp_tree_t.cfg", "Exp_treemulti_t.cfg"]
 
 
@@ -177,7 +177,7 @@ def run(ctx):
 
     # ---- 2. direction A: export + replay (each export also model-checks its configuration)
     cfgs = THOROUGH_EXPORTS if thorough else QUICK_EXPORTS
-    exports = sp.run_exports("MC.tla", cfgs, CWD, [sp.exe(bins), "recv-replay"], parallel=4,
+    exports = sp.run_exports("MC.tla", cfgs, CWD, [sp.exe(bins), "recv-replay"], parallel=5,
                              timeout=1500 if thorough else 600)
     schedules = []
     sched_sig = []
